@@ -476,7 +476,7 @@ OUTPUT_PARAMS = {("_binop", "new"): "explicit output parameter; the only caller 
 
 
 def rule_r3(chk, model):
-    chk.rule("C10-R3", "no Series method mutates (transitively) the Series state of a parameter other than its receiver", floor=100)
+    chk.rule("C10-R3", "no Series method mutates (transitively) the Series state of a parameter other than its receiver", floor=100, shape_independent=True)
     fns, mut = effect_summaries(model)
     model._mutators = {k[1] for k, v in mut.items() if k[0] == "m" and 0 in v}
     chk.extra["c10_mutator_methods"] = len(model._mutators)
@@ -707,15 +707,15 @@ def run(chk):
     model = SeriesModel(chk.repo)
     chk.extra["c10_methods_resolved"] = len(model.methods)
     chk.extra["c10_generated"] = len(model.generated_methods) + len(model.generated_functions)
-    rule_r3(chk, model)          # computes mutator set used by R2
-    rule_r1(chk, model)
-    rule_r2(chk, model)
-    rule_r4(chk, model)
-    rule_r5(chk, model)
-    rule_r7(chk, model)
-    rule_r6(chk, model)
+    chk.guard(rule_r3, chk, model)
+    chk.guard(rule_r1, chk, model)
+    chk.guard(rule_r2, chk, model)
+    chk.guard(rule_r4, chk, model)
+    chk.guard(rule_r5, chk, model)
+    chk.guard(rule_r7, chk, model)
+    chk.guard(rule_r6, chk, model)
     from .. import gens
-    gens.apply(chk, "C10-R8", {"series"}, 5, "a generator of periods or variants consumed twice leaves later variants / later passes without data")
+    chk.guard(gens.apply, chk, "C10-R8", {"series"}, 5, "a generator of periods or variants consumed twice leaves later variants / later passes without data")
     chk.assumptions = [
         "numpy element-wise functions preserve which cells are NaN (exemptions listed in NONDIRTY with reasons)",
         "implicit exceptions are not modelled: a path that raises leaves no obligation",
